@@ -29,6 +29,7 @@ ASSUMPTIONS = [
     "Redis crash recovery is judged outside a +-1 s band around t_take + execution_timeout only if the band is caused by whole-second scores (reported separately)",
 ]
 SHRINK_LISTS = ("jobs",)
+MW_OPS = {"consume", "enqueue", "ack", "nack", "reject", "requeue", "get_bucket", "store_bucket", "delete_bucket"}
 
 _ORIG_RUNNER = None
 SLACK_US = 7_000_000  # 5 s consumer finish + 1 s health server + 1 s slack (constants in worker.py)
@@ -65,6 +66,8 @@ def gen(rng, broker, tier):
             j["name"] = "b0"
         jobs.append(j)
     return {
+        # observers must not change what a stop does: part of the scenarios run with (trivial) middleware subscribers
+        "subscribers": rng.choice([[], [], ["after_consume"], ["after_consume", "before_ack", "after_requeue", "after_reject"]]),
         "jobs": jobs, "graceful_s": graceful, "tasks_limit": rng.choice([1, 2, 3, 4, 1000]),
         "end_us": rng.choice([600_000, 1_200_000, 2_500_000]),
         "policy_us": [rng.choice([0, 50_000, 300_000, 5_000_000])],
@@ -81,6 +84,25 @@ async def _main(sim, sc, out):
     nodes = ("w", "p")
     world = await World(sim, broker, nodes=nodes, buckets="redis" if broker == "redis" else "mem").setup()
     connw, connp = world.conn("w"), world.conn("p")
+    sub_calls: dict = {}
+    for sub in sc.get("subscribers", []):
+        sub = {"signal": sub, "kind": "yield"} if isinstance(sub, str) else sub
+        ns: dict = {}
+        body = {"yield": "async def {n}():\n    await _sleep(0)\n",
+                "slow": "async def {n}():\n    await _sleep(0.002)\n",
+                "raise": "async def {n}():\n    await _sleep(0)\n    raise RuntimeError('subscriber')\n",
+                "sync": "def {n}():\n    return None\n"}[sub["kind"]]
+        exec(body.format(n=sub["signal"]), {"_sleep": asyncio.sleep}, ns)  # noqa: S102
+        connw.middleware.add_subscriber(ns[sub["signal"]])
+        lst = connw.middleware.subscribers[sub["signal"]]
+
+        def counted(_w=lst[-1], _n=sub["signal"], **kw):
+            # counted when the signal is emitted (the subscriber coroutine itself may be cancelled before its first step)
+            sub_calls[_n] = sub_calls.get(_n, 0) + 1
+            return _w(**kw)
+
+        lst[-1] = counted
+        sub_calls.setdefault(sub["signal"], 0)
     jobs = {j["id"]: j for j in sc["jobs"]}
     state = workload.ActorState(world, jobs)
     pol = {"kind": "table", "us": sc.get("policy_us", [0])}
@@ -198,6 +220,27 @@ async def _main(sim, sc, out):
         out["violations"].append(violation(
             "late-return", f"C03/{b}/late-return/{_global_phase(pv)}", after_signal_s=(t_ret - sig["us"]) / 1e6))
     _check_final_places(world, state, jobs, enq, out, b, info)
+    # observers: every top-level call which returned was announced by exactly one `after` signal (and one `before`)
+    for signame, n_seen in sorted(sub_calls.items()):
+        when, op = signame.split("_", 1)
+        if op == "actor_run" or (b == "rabbit" and op.endswith("_bucket")):
+            continue  # (RabbitMQ worlds share one in-memory bucket broker object between the two connections)
+        by_seq = {e.seq: e for e in world.rec.events}
+
+        def in_wrapped(e):  # nested inside another middleware-wrapped operation: emits nothing
+            while e.parent is not None:
+                e = by_seq[e.parent]
+                if e.op in MW_OPS:
+                    return True
+            return False
+
+        evs = [e for e in world.rec.events if e.op == op and not in_wrapped(e) and (b == "mem" or e.node == "w")]
+        n_ret = sum(1 for e in evs if e.outcome == "returned")
+        n_open = len(evs) - n_ret  # cancelled / raised / still pending: the signal may or may not have been emitted
+        if not (n_ret <= n_seen <= n_ret + n_open) if when == "after" else not (n_ret <= n_seen <= len(evs)):
+            out["violations"].append(violation(
+                "signal-count", f"C03/{b}/observers/{'fewer' if n_seen < n_ret else 'more'}-{when}-signals-than-calls/{op}",
+                signal=signame, seen=n_seen, returned=n_ret, other=n_open))
     bad_exc = [e for e in loop.exc_log if e["node"] == "w"]
     if bad_exc and not out["violations"]:
         probe(out, "loop-exception-handler-called", len(bad_exc))
@@ -488,12 +531,16 @@ def run(sc):
 PARTS = 4  # one scenario's sweep is split over this many tasks (better use of the cores)
 
 
-def task(spec):
+def task(spec, run=None, tweak=None):
+    """`run`/`tweak` let another property (C17) reuse the stop sweep with its own scenario changes and signatures"""
+    run = run or globals()["run"]
     part = spec["idx"] % PARTS
     spec = dict(spec, idx=spec["idx"] // PARTS)
     run_seed = kernel.derive_seed(spec["seed"], spec["pid"], spec["broker"], spec["idx"])
     rng = random.Random(kernel.derive_seed(run_seed, "workload"))
     sc = gen(rng, spec["broker"], spec["tier"])
+    if tweak:
+        tweak(sc, rng)
     sc.update({"seed": run_seed, "broker": spec["broker"], "property": spec["pid"]})
     ref = run(sc)
     outs = [ref]
